@@ -7,6 +7,7 @@ import (
 	"errors"
 	"fmt"
 	"math/rand"
+	"os"
 	"runtime"
 	"sort"
 	"strings"
@@ -243,6 +244,11 @@ var corpus = []prog{
 
 func run(c *hl.Ctx) error {
 	if cs := c.ReplayCase(); cs != nil {
+		if cs["k"] == "race" {
+			// a race report names functions, not an input: re-run the corpus with many concurrent repeats
+			runBatch(c, corpus, 8)
+			return nil
+		}
 		in := cs["in"].(map[string]any)
 		files := map[string]string{}
 		if m, ok := in["files"].(map[string]any); ok {
@@ -257,7 +263,13 @@ func run(c *hl.Ctx) error {
 	repeats := c.Pick(2, 6)
 	runBatch(c, corpus, repeats)
 	c.Count("corpus")
-	n := c.Pick(1200, 40000)
+	n := c.Pick(1200, 20000)
+	if os.Getenv("D2V_RACE") != "" {
+		n = c.Pick(300, 3000) // the race detector slows every compile ~10x
+	}
+	if c.Search && c.Tier != "thorough" {
+		n = 6000 // an obligation broke in the quick tier: a moderate search for a concrete failing input
+	}
 	sc := &totalgen.Screener{}
 	defer sc.Close()
 	var batch []prog
